@@ -3,7 +3,7 @@
 From Coq Require Extraction.
 From Coq Require Import ExtrOcamlBasic.
 From Coq Require Import List NArith.
-From SosModel Require Import base.Sha256 model.Merkle base.Bytes model.Formats.
+From SosModel Require Import base.Sha256 model.Merkle base.Bytes model.Formats model.EventLog.
 Extraction "../driver/model.ml"
   Sha256.sha256
   Merkle.root Merkle.head Merkle.proof_at Merkle.tree_compare Merkle.verify_leaves
@@ -12,4 +12,6 @@ Extraction "../driver/model.ml"
   Formats.p_write_event Formats.e_write_event Formats.p_account_event Formats.e_account_event
   Formats.p_file_event Formats.e_file_event Formats.p_record Formats.e_record
   Formats.p_cproof Formats.e_cproof Formats.p_cstate Formats.e_cstate
-  Formats.p_comparison Formats.e_comparison Formats.decode_top.
+  Formats.p_comparison Formats.e_comparison Formats.decode_top
+  EventLog.log_apply EventLog.log_reopen EventLog.log_clear EventLog.log_rewind
+  EventLog.log_patch_checked EventLog.log_replace_all EventLog.rewind_and_patch EventLog.proof_eqb.
